@@ -412,6 +412,11 @@ func descCall(c *ssa.Call, depth int) string {
 	for _, a := range com.Args {
 		args = append(args, descValue(a, depth+1))
 	}
+	// the compiled pattern a method of *regexp.Regexp works with: compiled on the spot, kept in a
+	// variable or in a field of the session -- all one spelling (which patterns a package has is R-RX's matter)
+	if strings.HasPrefix(name, "(*regexp.Regexp).") && len(args) > 0 {
+		args[0] = "rx"
+	}
 	// a constant pattern is described in its parsed and simplified form (\d and [0-9] are one spelling)
 	if strings.HasPrefix(name, "regexp.") && len(com.Args) > 0 {
 		if s, ok := constString(com.Args[0]); ok && strings.HasPrefix(args[0], "\"") {
